@@ -3,6 +3,7 @@ package main
 import (
 	"go/token"
 	"go/types"
+	"sort"
 	"strings"
 
 	"golang.org/x/tools/go/ssa"
@@ -317,5 +318,72 @@ func runC14(c *Ctx) {
 	}
 	if len(written) == 0 {
 		c.info("C14-R3", dbPkg+"#no-tx-in-context", token.NoPos, "no *sql.Tx is stored in a context")
+	}
+	// every executor the ORM invokes on its Database must, in the driver ORM.Transaction supports, take the
+	// transaction from the context: read the key and call a *sql.Tx method
+	if txFn := c.fn(dbPkg, "ORM.Transaction"); txFn != nil && len(written) > 0 {
+		var drv *types.Named
+		eachInstr(txFn, func(_ *ssa.BasicBlock, _ int, ins ssa.Instruction) {
+			if ta, ok := ins.(*ssa.TypeAssert); ok {
+				if n := namedOf(ta.AssertedType); n != nil {
+					drv = n
+				}
+			}
+		})
+		used := map[string]token.Pos{}
+		for _, fn := range c.srcFuncs(dbPkg) {
+			if fn.Signature.Recv() == nil && fn.Parent() == nil {
+				continue
+			}
+			top := topParent(fn)
+			if top.Signature.Recv() == nil {
+				continue
+			}
+			rn := namedOf(top.Signature.Recv().Type())
+			if rn == nil || (rn.Obj().Name() != "ORM" && rn.Obj().Name() != "QueryBuilder") {
+				continue
+			}
+			eachCall(fn, func(call ssa.CallInstruction) {
+				cc := call.Common()
+				if cc.IsInvoke() && typeIs(cc.Value.Type(), dbPath, "Database") && len(cc.Args) > 0 && typeIs(cc.Args[0].Type(), "context", "Context") {
+					if _, ok := used[cc.Method.Name()]; !ok {
+						used[cc.Method.Name()] = call.Pos()
+					}
+				}
+			})
+		}
+		if drv == nil {
+			c.undecided("C14-R3: ORM.Transaction no longer asserts a concrete driver type; executor rule cannot be evaluated")
+		}
+		names := make([]string, 0, len(used))
+		for m := range used {
+			names = append(names, m)
+		}
+		sort.Strings(names)
+		for _, m := range names {
+			impl := c.fn(dbPkg, drv.Obj().Name()+"."+m)
+			if impl == nil {
+				c.undecided("C14-R3: %s.%s not found", drv.Obj().Name(), m)
+				continue
+			}
+			readsKey := reachesInstr(impl, func(x ssa.Instruction) bool {
+				call, ok := x.(*ssa.Call)
+				if !ok || !call.Call.IsInvoke() || call.Call.Method.Name() != "Value" || !typeIs(call.Call.Value.Type(), "context", "Context") {
+					return false
+				}
+				k, ok := call.Call.Args[0].(*ssa.MakeInterface)
+				_, w := written[k.X.Type().String()]
+				return ok && w
+			}, 2, map[*ssa.Function]bool{})
+			usesTx := false
+			eachCall(impl, func(call ssa.CallInstruction) {
+				if f := calleeOf(call); f != nil && f.Type().(*types.Signature).Recv() != nil && typeIs(f.Type().(*types.Signature).Recv().Type(), "database/sql", "Tx") {
+					usesTx = true
+				}
+			})
+			c.ob("C14-R3", fnKey(impl)+"#runs-on-context-transaction", impl.Pos(), readsKey && usesTx,
+				"the ORM executes statements through "+drv.Obj().Name()+"."+m+", which never takes the transaction out of the context: inside ORM.Transaction's callback these statements run on the pool, are not part of the transaction and survive its rollback")
+		}
+		c.floor("C14-R3", 3)
 	}
 }
